@@ -9,6 +9,7 @@ import struct
 
 from .common import import_repo, Machinery
 from . import wire_ref as W, cmdset
+from . import dsref
 
 import_repo()
 from pynetdicom2 import dimsemessages as dm, asceprovider, dsutils, fsm, pdu, applicationentity, sopclass  # noqa: E402
@@ -172,4 +173,4 @@ def dataset_bytes(rng, size_hint, ts=pyuid.ImplicitVRLittleEndian):
     if size_hint > 60:
         ds.PixelData = bytes(rng.getrandbits(8) for _ in range((size_hint - 60) // 2 * 2))
         ds['PixelData'].VR = 'OB'
-    return dsutils.encode(ds, ts.is_implicit_VR, ts.is_little_endian), ds
+    return dsref.encode(ds, ts.is_implicit_VR, ts.is_little_endian), ds
